@@ -477,7 +477,7 @@ func Dump(v interface{}) string {
 		if rv.IsNil() {
 			return "ptr:nil"
 		}
-		return fmt.Sprintf("ptr:%#v", rv.Elem().Interface())
+		return "ptr:set"
 	case reflect.Interface:
 		if rv.IsNil() {
 			return "iface:nil"
@@ -485,6 +485,12 @@ func Dump(v interface{}) string {
 	}
 	if e, ok := v.(error); ok {
 		return "error:" + e.Error()
+	}
+	switch rv.Kind() {
+	case reflect.Struct, reflect.Map, reflect.Slice, reflect.Array, reflect.Chan:
+		// not option-like: tables, caches, pools, buffers. Reported for information ("aux:") but not part
+		// of the option-state vector - a cache that fills up is not an option that changed.
+		return fmt.Sprintf("aux:%T", v)
 	}
 	return fmt.Sprintf("%#v", v)
 }
